@@ -1155,7 +1155,7 @@ def _want(pid):
     """Properties whose disagreements / monitor findings are reported.  Normally just the check's own property; the
     maintenance switch VERIF_SM_WANT=C01,C02,C03,C04 reports all of them from one exploration (when that run is silent,
     each single-property run over the same shapes is silent too, because without a reported disagreement no execution is cut)."""
-    return os.environ.get("VERIF_SM_WANT", pid).split(",")
+    return _os.environ.get("VERIF_SM_WANT", pid).split(",")
 
 
 def run_check(pid, tier, seed, shapes, nops, maxdev, bfs_depth, rule_extra="", probe_every=0, sig_names=(), timing_depth=0, light_names=(), light_nops=3, light_bfs=3, light_timing=8, sibling_depth=10):
